@@ -6,9 +6,32 @@ K_NOTE = ("Trusted: Kani 0.68 / CBMC 6.11 / CaDiCaL, rustc MIR semantics of Kani
           "Environment model (crate::verif std shim): logical threads with park tokens, virtual clock, parallelism in {1,2}; "
           "VecDeque::grow assumed unreachable (no buffer reallocation); contended lock asserted unreachable (critical sections atomic: premise from C17). "
           "Schedules explored: nesting of complete operations at concrete hook sites + one split-phase peer; everything else is outside the claim.")
+KM = "Kani/CBMC bounded model checking of the compiled crate (sequentialised concurrency) + MIR->SMT interleaving BMC with happens-before (z3)"
+KO = "Kani/CBMC bounded model checking of the compiled crate, sequentialised concurrency"
+M_NOTE = ("Engine M trusted base: z3 (cvc5 cross-check on fast queries), the MIR subset semantics encoded in lib/mirbmc.py (validated by mutation), rustc nightly's MIR dump. "
+          "Atomics: interleaving (SC) values + C11 happens-before (release sequences, acquire fences); park/unpark synchronise; yield/sleep/spin_hint are pure delays; 2-3 threads, K visible steps.")
+T_NOTE = "Engine T trusted base: the axiom table for std / lock_api auto traits and the regex extraction (both validated against rustc on 56 table entries each run), z3, rustc."
 CLAIMED = {
-    "C05": ("Bounded symbolic check (Kani/CBMC) of drop-exactly-once on the real code: every send variant x outcome, ghost drop counters per tagged payload",
-            "Kani/CBMC bounded model checking of the compiled crate, sequentialised concurrency"),
+    "C01": ("Bounded symbolic check of exactly-once delivery on the real code: ghost ledgers (offered / received / dropped per tagged value) over blocked-op x peer-at-every-site, pending-future, split-phase, cancelled-while-claimed and call-sequence harnesses", KO, "K"),
+    "C02": ("Bounded symbolic check of FIFO order: receive order vs acceptance order across buffer, waiting list (3 waiters, cancellation from head/middle, timed-out waiter among others), buffer refill and drain_into", KO, "K"),
+    "C03": ("Bounded refinement check at critical-section granularity: every result of nested executions and of full-API call sequences equals the ideal atomic channel's; observers at hook sites see the registered state. Critical-section atomicity itself is C17's claim", KO, "K"),
+    "C04": ("All bit patterns of 11 payload classes through the four KanalPtr paths and end-to-end on the three transfer paths (Kani); payload write happens-before payload read over all interleavings of the signal kernels (engine M)", KM, "K+M"),
+    "C05": ("Bounded symbolic check of drop-exactly-once: ghost drop counters per tagged payload over every send variant x outcome (ok, closed, receive-closed, timeout with successful / failed cancel, refused, future dropped at every stage, terminated-then-dropped)", KO, "K"),
+    "C06": ("Safety form of progress, bounded: no reachable state in which the counterpart has finished and the operation cannot be resumed (Kani: STUCK detector, latest-waker-woken ledger; engine M: no lost wake-up over all interleavings of wait/wake with spurious park returns)", KM, "K+M"),
+    "C07": ("Engine M: no happens-before race between the peer's accesses to the waiter's signal / waker cell / payload slot and the owner's end-of-life, over all interleavings of the real MIR kernels; Kani: CBMC pointer-safety checks with split-phase peers against timed-out, dropped and re-polled waiters", KM, "K+M"),
+    "C08": ("Bounded symbolic check of capacity: admission only with room or a waiting receiver, len <= capacity, refusal iff full and no receiver, rendezvous for capacity 0, zero-sized payloads included", KO, "K"),
+    "C09": ("Bounded symbolic check of sync/async interchange: sync waiter x async peer and vice versa at every hook site, every conversion / clone flavour, with the delivery / order / drop / progress oracles of C01-C06", KO, "K"),
+    "C10": ("Bounded symbolic check of close: close at every site of every blocked op and inside polls, call sequences after close (all operations fail Closed, counts zero, second close fails, buffered values destroyed), every clone flavour after close", KO, "K"),
+    "C11": ("Bounded symbolic check of disconnect: last-handle drop at every site of blocked ops and against pending futures, buffered values then SendClosed, sends fail ReceiveClosed, clones taken after the other side is gone", KO, "K"),
+    "C12": ("Bounded symbolic check of handle counts against a live-handle ledger over clone (4 flavours per side) / convert / drop / close sequences", KO, "K"),
+    "C13": ("Bounded symbolic check of timed operations: exactly one outcome, Timeout never before the deadline (symbolic clock), nothing left in the waiting list, split-phase claim around the expiry, a timed-out waiter removes exactly itself; engine M: wait_timeout / wait kernel vs hand-off", KM, "K+M"),
+    "C14": ("Bounded symbolic check of non-blocking operations: try_*/drain never reach the wait model, success iff a value moved, refused operations leave the state unchanged, realtime variants give up at once while the lock is held; engine M: try_lock is a single atomic step", KM, "K+M"),
+    "C15": ("Bounded symbolic check of future drop at five life stages, including claimed-by-a-peer (hand-off or terminate at three sites, first and second arrival), the waiter behind keeping its place, terminated-then-dropped", KO, "K"),
+    "C16": ("Bounded symbolic check of the polling contract: spurious polls with symbolic wakers stay pending, the latest waker is woken, a peer acting inside the poll, a claimed future re-polled, completed futures panic, the stream over several waits", KO, "K"),
+    "C17": ("Bounded model checking of the real MIR of the spin mutex and spin_cond: mutual exclusion, happens-before race freedom on the protected data, no reachable panic, try_lock single step, progress for parallelism == 1 and > 1; 2-3 threads, all schedules within K steps", "MIR->SMT interleaving bounded model checking with a C11 happens-before monitor (z3, cvc5 cross-check)", "M"),
+    "C18": ("Bounded symbolic equivalence with a reference queue-plus-waiting-list model: all one-call sequences and curated multi-call sequences over the full API alphabet (thorough: all legal two-call sequences), every result and every observer compared after every call", KO, "K"),
+    "C19": ("Bounded symbolic check of drain_into on composed states: count, order (buffer then blocked senders oldest first), previous vector contents untouched, drained senders released and woken, closed channel, blocked receivers", KO, "K"),
+    "C20": ("Auto-trait derivation of the seven public types as a propositional formula over (T: Send, T: Sync), decided universally by z3 and replayed on the compiler", "SMT encoding of auto-trait derivation (z3/cvc5) + rustc probe", "T"),
 }
 NA = {}
 props = [json.loads(l) for l in open(os.path.join(HERE, "properties.jsonl"))]
@@ -16,17 +39,17 @@ checks, na = [], []
 for p in props:
     pid = p["id"]
     if pid in CLAIMED:
-        text, tech = CLAIMED[pid]
+        text, tech, eng = CLAIMED[pid]
         checks.append({
             "property_id": pid,
             "quick_cmd": "./check %s --tier quick" % pid,
             "thorough_cmd": "./check %s --tier thorough" % pid,
             "evidence_file": "evidence/%s.json" % pid,
             "replay_cmd_template": "./check %s --replay {path}" % pid,
-            "engine": "K",
+            "engine": eng,
             "level_claimed": {"category": "other", "text": text + ". A pass means: the assertions hold for every value of the solver variables within the stated bounds; nothing is claimed outside them.",
                               "design_ref": "DESIGN.md section 4 (%s)" % pid},
-            "level_note": K_NOTE,
+            "level_note": {"K": K_NOTE, "K+M": K_NOTE + " " + M_NOTE, "M": M_NOTE, "T": T_NOTE}[eng],
             "technique": tech,
         })
     else:
@@ -38,12 +61,16 @@ m = {
         "guard": "cargo feature `verif` (cfg(feature = \"verif\"))",
         "enable": "checks copy /repo to a scratch directory, overlay kani/verif.rs + kani/verif/ as src/verif*, and run `cargo kani --features verif -Z stubbing`",
         "baseline_off_cmd": "cd /repo && cargo test --workspace --no-fail-fast --offline",
-        "source_commits": ["3170146"],
+        "source_commits": ["3170146", "81bc633"],
         "add_only": True,
     },
     "engines": [
-        {"name": "K", "path": "lib/kengine.py + kani/", "serves_properties": sorted(CLAIMED),
+        {"name": "K", "path": "lib/kengine.py + lib/props.py + kani/", "serves_properties": sorted(k for k, v in CLAIMED.items() if "K" in v[2]),
          "kind_free_text": "Kani 0.68 / CBMC 6.11 bounded model checking of the compiled kanal crate; in-crate proof harnesses generated per run; concurrency sequentialised through hook sites"},
+        {"name": "M", "path": "lib/mir.py + lib/mirbmc.py + lib/mscen.py", "serves_properties": sorted(k for k, v in CLAIMED.items() if "M" in v[2]),
+         "kind_free_text": "MIR (nightly -Zunpretty=mir) of the lock-free kernels -> z3 bounded model checking with symbolic schedule and C11 happens-before monitor"},
+        {"name": "T", "path": "lib/tengine.py", "serves_properties": ["C20"],
+         "kind_free_text": "auto-trait derivation as SMT over extracted type structure; compiler probe as replay"},
     ],
     "checks": checks,
     "not_applicable": na,
